@@ -84,10 +84,7 @@ func newCall(parent context.Context, st Step) *call {
 	if cl.conn == 0 {
 		cl.conn = 1
 	}
-	md := metadata.MD{}
-	for _, kv := range st.Md {
-		md.Append(kv[0], kv[1])
-	}
+	md := mdOf(st.Md)
 	md.Set(tokenKey, fmt.Sprintf("%d", st.C))
 	ctx := metadata.NewOutgoingContext(parent, md)
 	if st.To != 0 {
